@@ -1,4 +1,5 @@
 import QProofs.C19
+import QGen.C19
 import Mathlib.Logic.Equiv.Fin.Basic
 import Mathlib.Algebra.BigOperators.Fin
 /-!
@@ -437,6 +438,124 @@ theorem fisherQt_block {K : Type} [Add K] [Sub K] [Mul K] [Div K] [Neg K] [Zero 
 
 end layout
 
+/-! ## tie to the source: constants and structure regenerated from the anchored files (QGen.C19) -/
+
+/-- C19 (source tie): the constants the model hard-wires are the ones in the source — `ddof = 1` of both sample standard
+deviations, default `eps = 1e-8` of the three Fisher helpers, `num_outcomes − 1` identity blocks in `_generate_matS`,
+`shape[0]` compared with `shape[1]` in `calc_direct_sum` — and `StandardQmpt` overrides neither the object-mode MSE nor
+the Cramér–Rao bound of the base class, so `mseLinearQopBase` / `crb` are its model (findings D13 / D13b stay open; an
+upstream override flips these booleans and breaks this proof, forcing the model to follow). The formula skeletons
+themselves (`(diag q − q qᵀ)/n`, `x @ v @ x.T`, `pinv(AᵀA) Aᵀ`, `Σ w_j·F_j(eps)`, `tr(F⁻¹)/N`, row slicing by
+`int(len(matA)/num_schedules)`) are matched statement by statement by the translator, which fails loudly otherwise. -/
+theorem gen_constants_match_model :
+    QGen.C19.ddofMseProbDists = 1 ∧ QGen.C19.ddofMseQoperations = 1 ∧
+    QGen.C19.epsFisher = 1 / 100000000 ∧ QGen.C19.epsReplace = 1 / 100000000 ∧ QGen.C19.epsFisherTotal = 1 / 100000000 ∧
+    QGen.C19.matSOffset = 1 ∧ QGen.C19.directSumSquareAxis = 1 ∧
+    QGen.C19.qmptOverridesQop = false ∧ QGen.C19.qmptOverridesCrb = false := by
+  decide +kernel
+
+/-- the model's sample variance divides by `length − ddof` with the generated `ddof` -/
+theorem varDdof1_uses_gen_ddof {K : Type} [Field K] (l : List K) :
+    varDdof1 l = lsum (l.map fun x => (x - mean l) * (x - mean l))
+      / ((l.length - QGen.C19.ddofMseProbDists : Nat) : K) := rfl
+
+/-- the model's `matS` has `(num_outcomes − matSOffset)·d²` columns with the generated offset -/
+theorem matS_uses_gen_offset (d2 mo : Nat) : (mo - QGen.C19.matSOffset) * d2 = (mo - 1) * d2 := rfl
+
+/-! ## measurement-process tomography in object mode (open findings D13 / D13b) -/
+section qmpt
+variable {K : Type} [Field K] [CharZero K] {m : Nat}
+
+/-- C19 (QMPT, what the object-mode MSE has to be): `tr(A⁺VA⁺ᵀ) + tr((S A⁺)V(S A⁺)ᵀ)` is the exact expectation
+`E‖v̂ − v‖² + E‖S(v̂ − v)‖²` — error of the stored entries plus error of the implied first row — for every `A⁺`, all
+probability vectors and sample sizes (`S = matSQmpt`). -/
+theorem qmpt_object_mse_exact (l : List (Vec K m × Nat)) (hl : ∀ x ∈ l, (∑ i, x.1.get i = 1) ∧ 1 ≤ x.2)
+    (d2 mo : Nat) (Ainv : Mat K (mo * (d2 * d2) - d2) (dsSize (covBlocks (uniArgs l)))) :
+    mseLinearQmptObject (covBlocks (uniArgs l)) d2 mo Ainv
+      = mseLinearExact (splitCols l Ainv) + mseLinearExact (splitCols l ((matSQmpt d2 mo).mul Ainv)) := by
+  unfold mseLinearQmptObject
+  rw [mse_linear_var_exact l hl, mse_linear_var_exact l hl]
+
+end qmpt
+
+/-- C19 (QMPT, the implied row): `matSQmpt` sums, for every column `a`, the first-row entries `v[k·d2² + a]` of the
+`mo − 1` completely stored HS matrices — the implied first row of the last HS matrix is `e₀ −` this sum, so its error is
+`−S(v̂ − v)` and the second term of `mseLinearQmptObject` is its squared error. -/
+theorem matSQmpt_mulVec {K : Type} [Field K] (d2 mo : Nat) (v : Vec K (mo * (d2 * d2) - d2)) (a : Fin d2) :
+    ((matSQmpt (K := K) d2 mo).mulVec v).get a
+      = ∑ k : Fin (mo - 1), if h : k.val * (d2 * d2) + a.val < mo * (d2 * d2) - d2
+          then v.get ⟨k.val * (d2 * d2) + a.val, h⟩ else 0 := by
+  rw [mulVec_get]
+  have hD : a.val < d2 * d2 := lt_of_lt_of_le a.isLt (Nat.le_mul_self d2)
+  have hDpos : 0 < d2 * d2 := by omega
+  have key : ∀ j : Fin (mo * (d2 * d2) - d2),
+      (matSQmpt (K := K) d2 mo).get a j * v.get j
+        = ∑ k : Fin (mo - 1), if j.val = k.val * (d2 * d2) + a.val then v.get j else 0 := by
+    intro j
+    simp only [matSQmpt, Mat.get_ofFn]
+    by_cases hc : j.val < (mo - 1) * (d2 * d2) ∧ j.val % (d2 * d2) = a.val
+    · rw [if_pos hc, one_mul]
+      have hk : j.val / (d2 * d2) < mo - 1 := (Nat.div_lt_iff_lt_mul hDpos).mpr hc.1
+      rw [Finset.sum_eq_single (⟨j.val / (d2 * d2), hk⟩ : Fin (mo - 1))]
+      · have : j.val = j.val / (d2 * d2) * (d2 * d2) + a.val := by
+          rw [← hc.2]; exact (Nat.div_add_mod' j.val (d2 * d2)).symm
+        rw [if_pos this]
+      · intro k _ hne
+        rw [if_neg]
+        intro hj
+        apply hne
+        apply Fin.ext
+        simp only
+        rw [hj, Nat.mul_comm, Nat.mul_add_div hDpos, Nat.div_eq_of_lt hD, Nat.add_zero]
+      · intro h; exact absurd (Finset.mem_univ _) h
+    · rw [if_neg hc, zero_mul]
+      symm
+      apply Finset.sum_eq_zero
+      intro k _
+      rw [if_neg]
+      intro hj
+      apply hc
+      constructor
+      · rw [hj]
+        have := k.isLt
+        calc k.val * (d2 * d2) + a.val < k.val * (d2 * d2) + d2 * d2 := by omega
+          _ = (k.val + 1) * (d2 * d2) := by ring
+          _ ≤ (mo - 1) * (d2 * d2) := Nat.mul_le_mul_right _ (by omega)
+      · rw [hj, Nat.mul_comm, Nat.mul_add_mod, Nat.mod_eq_of_lt hD]
+  simp only [key]
+  rw [Finset.sum_comm]
+  refine Finset.sum_congr rfl fun k _ => ?_
+  by_cases h : k.val * (d2 * d2) + a.val < mo * (d2 * d2) - d2
+  · rw [dif_pos h, Finset.sum_eq_single (⟨k.val * (d2 * d2) + a.val, h⟩ : Fin _)]
+    · simp
+    · intro j _ hne
+      rw [if_neg]
+      intro hj; exact hne (Fin.ext hj)
+    · intro hh; exact absurd (Finset.mem_univ _) hh
+  · rw [dif_neg h]
+    apply Finset.sum_eq_zero
+    intro j _
+    rw [if_neg]
+    intro hj
+    exact h (hj ▸ j.isLt)
+
+/-- OPEN (D13): the object-mode MSE the code returns for `StandardQmpt` (the base-class value) is not the exact object
+error. Smallest instance of the structure: one stored entry `h₀`, implied entry `1 − h₀`, one schedule with
+`p = (h₀, 1 − h₀) = (1/2, 1/2)`, `n = 2`, `A⁺ = [1/2, −1/2]`: the code's value is `1/8`, the exact `E‖object error‖²` is `1/4`. -/
+theorem qmpt_object_mse_fails :
+    mseLinearQopBase (K := Rat) (covBlocks [⟨2, Vec.ofFn fun _ => 1/2, 2⟩])
+        (Mat.ofFn (m := 1) fun _ j => if j.val = 0 then 1/2 else -1/2) = 1/8 ∧
+    mseLinearQmptObject (K := Rat) (covBlocks [⟨2, Vec.ofFn fun _ => 1/2, 2⟩]) 1 2
+        (Mat.ofFn fun _ j => if j.val = 0 then 1/2 else -1/2) = 1/4 := by
+  decide +kernel
+
+/-- OPEN (D13b): likewise the Cramér–Rao bound the code returns for `StandardQmpt` with the flag on is `tr(F⁻¹)/N`
+of the variables (`1/40` on the instance `F = 4`, `N = 10`), the object-parametrisation bound is `1/20`. -/
+theorem qmpt_crb_fails :
+    crb (K := Rat) (Mat.ofFn (m := 1) (n := 1) fun _ _ => 1/4) 10 = 1/40 ∧
+    crbQmptObject (K := Rat) 1 2 (Mat.ofFn fun _ _ => 1/4) 10 = 1/20 := by
+  decide +kernel
+
 /-! ## validation of the helpers (repaired code) -/
 
 /-- C19 (`calc_fisher_matrix_total`, size): a successful call returns a square matrix whose size is the
@@ -487,6 +606,7 @@ example : (dsCheck (K := Rat) [⟨2, 1, Mat.ofFn fun i _ => (i.val : Rat) + 1⟩
   decide +kernel
 
 -- non-vacuity: concrete instances of the hypotheses
+example : (matSQmpt (K := Rat) 2 2).toList.map (·.toList) = [[1, 0, 0, 0, 0, 0], [0, 1, 0, 0, 0, 0]] := by decide +kernel
 example : covExact (K := Rat) (Vec.ofFn fun i : Fin 3 => if i.val = 2 then 1/2 else 1/4) 3
     = covMat (Vec.ofFn fun i : Fin 3 => if i.val = 2 then 1/2 else 1/4) 3 := by decide +kernel
 example : (fisher (K := Rat) [1/4, 3/4] [[1, 2], [-1, -2]] (1/100000000)).toOption
